@@ -252,6 +252,10 @@ impl<SVC: Service> CloudServer<SVC> {
 
     /// Perform cleanup, deleting unnecessary data.
     async fn cleanup(&mut self) -> Result<()> {
+        // Note the latest version before listing the version objects: the listing is only a
+        // complete picture of the chain if no version is committed while it is being made.
+        let latest_before_listing = self.get_latest().await?;
+
         // Construct a vector containing all (child, parent, creation) tuples
         let mut versions = {
             let mut versions = Vec::new();
@@ -282,6 +286,12 @@ impl<SVC: Service> CloudServer<SVC> {
         let mut rev_chain = HashMap::new();
         let mut iterations = versions.len() + 1; // For cycle detection.
         let latest = self.get_latest().await?;
+        if latest != latest_before_listing {
+            // Another replica added a version while the objects were being listed, so the listing
+            // may lack objects on the chain ending at `latest`, and everything it does contain
+            // would look unreachable. Leave the cleanup to a later run.
+            return Ok(());
+        }
         if let Some(mut c) = latest {
             while let Some(p) = parent_of(c) {
                 rev_chain.insert(c, p);
